@@ -1,53 +1,137 @@
 package main
 
 import (
+	"encoding/json"
 	"flag"
 	"fmt"
 	"os"
+	"path/filepath"
+	"runtime"
+	"sort"
 	"strconv"
 	"strings"
+	"sync"
 	"time"
 
 	"vpengine/exec"
+	"vpengine/replay"
 	"vpengine/smt"
+	"vpengine/spec"
 )
 
-func main() {
-	repo := flag.String("repo", "/repo", "repository under test")
-	harness := flag.String("harness", "/verif/harness", "harness directory")
-	run := flag.String("run", "", "pkg:Func to run ad hoc")
-	cfg := flag.String("cfg", "", "k=v,k=v config for -run")
-	z3 := flag.String("z3", "z3-new", "solver binary")
-	keep := flag.Bool("keep", false, "keep scratch dir")
-	flag.Parse()
+type knownEntry struct {
+	Property    string                 `json:"property"`
+	ID          string                 `json:"id"`
+	Status      string                 `json:"status"` // known | fixed
+	Harness     string                 `json:"harness,omitempty"`
+	Label       string                 `json:"label,omitempty"`
+	Constraints []exec.KnownConstraint `json:"constraints,omitempty"`
+	APIWitness  string                 `json:"api_witness,omitempty"`
+	What        string                 `json:"what"`
+	Commit      string                 `json:"commit,omitempty"`
+	Line        string                 `json:"line,omitempty"`
+}
 
+func main() {
+	if len(os.Args) < 2 {
+		usage()
+	}
+	switch os.Args[1] {
+	case "check":
+		os.Exit(cmdCheck(os.Args[2:]))
+	case "replay":
+		os.Exit(cmdReplay(os.Args[2:]))
+	case "run":
+		os.Exit(cmdRun(os.Args[2:]))
+	case "list":
+		for _, o := range spec.All() {
+			fmt.Printf("%-22s %-12s %-28s %v\n", o.ID, o.Pkg, o.Func, o.Props)
+		}
+	default:
+		usage()
+	}
+}
+
+func usage() {
+	fmt.Fprintln(os.Stderr, "usage: vpcheck check -prop ID -tier quick|thorough | replay -path file | run -run pkg:Func -cfg k=v | list")
+	os.Exit(2)
+}
+
+func fatal(err error) {
+	fmt.Fprintln(os.Stderr, "vpcheck:", err)
+	os.Exit(2)
+}
+
+type env struct {
+	repo, verif, z3 string
+	scratch         string
+	prog            *exec.Program
+	pool            *smt.Pool
+}
+
+func setup(repo, verif, z3 string, poolSize int) (*env, error) {
+	e := &env{repo: repo, verif: verif, z3: z3}
 	scratch, err := os.MkdirTemp("", "vp-scratch-")
 	if err != nil {
-		fatal(err)
+		return nil, err
 	}
-	if !*keep {
-		defer os.RemoveAll(scratch)
+	e.scratch = scratch
+	if err := exec.CopyTree(repo, scratch); err != nil {
+		return e, err
 	}
-	if err := exec.CopyTree(*repo, scratch); err != nil {
-		fatal(err)
+	if _, err := exec.InstallHarness(filepath.Join(verif, "harness"), scratch, false); err != nil {
+		return e, err
 	}
-	if _, err := exec.InstallHarness(*harness, scratch, false); err != nil {
-		fatal(err)
-	}
-	t0 := time.Now()
 	prog, err := exec.Load(scratch)
 	if err != nil {
-		fatal(err)
+		return e, err
 	}
-	fmt.Printf("loaded in %.1fs\n", time.Since(t0).Seconds())
-	pool, err := smt.NewPool(*z3, 8, "-in")
+	e.prog = prog
+	pool, err := smt.NewPool(z3, poolSize, "-in")
+	if err != nil {
+		return e, err
+	}
+	e.pool = pool
+	return e, nil
+}
+
+func (e *env) close() {
+	if e.pool != nil {
+		e.pool.Close()
+	}
+	if e.scratch != "" {
+		os.RemoveAll(e.scratch)
+	}
+}
+
+func cmdRun(args []string) int {
+	fs := flag.NewFlagSet("run", flag.ExitOnError)
+	repo := fs.String("repo", "/repo", "")
+	verif := fs.String("verif", "/verif", "")
+	run := fs.String("run", "", "pkg:Func")
+	cfg := fs.String("cfg", "", "k=v,k=v")
+	z3 := fs.String("z3", "z3-new", "")
+	oblig := fs.String("oblig", "", "run a registered obligation (all its configs of the tier)")
+	tier := fs.String("tier", "quick", "")
+	rat := fs.Bool("rat", false, "rational float abstraction")
+	fs.Parse(args)
+	e, err := setup(*repo, *verif, *z3, 12)
+	defer e.close()
 	if err != nil {
 		fatal(err)
 	}
-	defer pool.Close()
-	if *run != "" {
+	var insts []*exec.Instance
+	if *oblig != "" {
+		var obs []*spec.Oblig
+		for _, o := range spec.All() {
+			if o.ID == *oblig {
+				obs = append(obs, o)
+			}
+		}
+		insts = spec.Instances(obs, *tier, 1)
+	} else {
 		parts := strings.SplitN(*run, ":", 2)
-		inst := &exec.Instance{Name: *run, Pkg: parts[0], Func: parts[1], Config: map[string]int{}}
+		inst := &exec.Instance{Name: *run, Pkg: parts[0], Func: parts[1], Config: map[string]int{}, RatFloat: *rat}
 		for _, kv := range strings.Split(*cfg, ",") {
 			if kv == "" {
 				continue
@@ -56,24 +140,416 @@ func main() {
 			v, _ := strconv.Atoi(p[1])
 			inst.Config[p[0]] = v
 		}
-		res := exec.RunInstance(prog, inst, exec.Solvers{Path: *z3, Pool: pool})
+		insts = append(insts, inst)
+	}
+	rc := 0
+	for _, inst := range insts {
+		res := exec.RunInstance(e.prog, inst, exec.Solvers{Path: e.z3, Pool: e.pool})
 		v := res.Verdict()
-		fmt.Printf("paths=%d infeasible=%d forks=%d merges=%d aborts=%d steps=%d vcs=%d trivial=%d feasq=%d (%.2fs) solver=%.2fs wall=%.2fs nodes=%d\n",
-			res.Paths, res.Infeasible, res.Forks, res.Merges, res.MergeAborts, res.Steps, res.VCs, res.TrivialVCs, res.FeasQueries, res.FeasSecs, res.SolverSecs, res.Wall, res.NodeCount)
-		for _, e := range v.Inconclusive {
-			fmt.Println("INCONCLUSIVE:", e)
+		fmt.Printf("%s: paths=%d infeasible=%d forks=%d merges=%d aborts=%d steps=%d vcs=%d trivial=%d feasq=%d (%.2fs) solver=%.2fs wall=%.2fs nodes=%d\n",
+			inst.Name, res.Paths, res.Infeasible, res.Forks, res.Merges, res.MergeAborts, res.Steps, res.VCs, res.TrivialVCs, res.FeasQueries, res.FeasSecs, res.SolverSecs, res.Wall, res.NodeCount)
+		for _, x := range v.Inconclusive {
+			fmt.Println("  INCONCLUSIVE:", x)
+			rc = 2
 		}
 		for _, vi := range v.Violations {
-			fmt.Printf("VIOLATION-CANDIDATE: %s %q at %s inputs=%v\n", vi.Kind, vi.Label, vi.Pos, vi.Inputs)
+			fmt.Printf("  VIOLATION-CANDIDATE: %s %q at %s inputs=%v\n", vi.Kind, vi.Label, vi.Pos, vi.Inputs)
+			rc = 1
 		}
-		fmt.Println("covers:", res.CoverHit)
-		if v.OK {
-			fmt.Println("OK")
+		for _, vi := range v.Known {
+			fmt.Printf("  KNOWN: %q inputs=%v\n", vi.Label, vi.Inputs)
+		}
+		fmt.Println("  covers:", res.CoverHit, "leak-notes:", len(res.Notes), "global-writes:", len(res.WriteLog))
+		for _, w := range res.WriteLog {
+			fmt.Println("  write:", w)
 		}
 	}
+	return rc
 }
 
-func fatal(err error) {
-	fmt.Fprintln(os.Stderr, "vpcheck:", err)
-	os.Exit(2)
+func loadKnown(verif string) ([]knownEntry, error) {
+	raw, err := os.ReadFile(filepath.Join(verif, "known_findings.json"))
+	if err != nil {
+		if os.IsNotExist(err) {
+			return nil, nil
+		}
+		return nil, err
+	}
+	var ks []knownEntry
+	if err := json.Unmarshal(raw, &ks); err != nil {
+		return nil, fmt.Errorf("known_findings.json: %v", err)
+	}
+	return ks, nil
+}
+
+type instSummary struct {
+	Name         string            `json:"instance"`
+	Oblig        string            `json:"obligation"`
+	Config       map[string]int    `json:"config,omitempty"`
+	Paths        int               `json:"paths"`
+	Infeasible   int               `json:"infeasible_paths"`
+	Steps        int64             `json:"ssa_instructions"`
+	Merges       int               `json:"merged_branches"`
+	Forks        int               `json:"forks"`
+	VCs          int               `json:"solver_vcs"`
+	Trivial      int               `json:"closed_by_term_normalisation"`
+	FeasQ        int               `json:"feasibility_queries"`
+	SolverSecs   float64           `json:"solver_s"`
+	Wall         float64           `json:"wall_s"`
+	Covers       []string          `json:"covers_reached,omitempty"`
+	Sample       map[string]uint64 `json:"sample_path_inputs,omitempty"`
+	Verdict      string            `json:"verdict"`
+	Inconclusive []string          `json:"inconclusive,omitempty"`
+}
+
+func cmdCheck(args []string) int {
+	fs := flag.NewFlagSet("check", flag.ExitOnError)
+	repo := fs.String("repo", "/repo", "")
+	verif := fs.String("verif", "/verif", "")
+	prop := fs.String("prop", "", "property id")
+	tier := fs.String("tier", "quick", "")
+	z3 := fs.String("z3", "z3-new", "")
+	jobs := fs.Int("j", 0, "parallel instances")
+	only := fs.String("only", "", "restrict to obligation ids with this prefix (debugging)")
+	noEvidence := fs.Bool("no-evidence", false, "")
+	verbose := fs.Bool("v", false, "per-instance statistics")
+	fs.Parse(args)
+	if env := os.Getenv("VERIF_TIER"); env != "" && (env == "quick" || env == "thorough") {
+		*tier = env
+	}
+	seed := int64(1)
+	if s := os.Getenv("VERIF_SEED"); s != "" {
+		if v, err := strconv.ParseInt(s, 10, 64); err == nil {
+			seed = v
+		}
+	}
+	t0 := time.Now()
+	obs := spec.ForProperty(*prop)
+	if *only != "" {
+		var f []*spec.Oblig
+		for _, o := range obs {
+			if strings.HasPrefix(o.ID, *only) {
+				f = append(f, o)
+			}
+		}
+		obs = f
+	}
+	if len(obs) == 0 {
+		fmt.Printf("INCONCLUSIVE property=%s no obligations registered\n", *prop)
+		return 2
+	}
+	known, err := loadKnown(*verif)
+	if err != nil {
+		fatal(err)
+	}
+	ncpu := runtime.NumCPU()
+	if *jobs == 0 {
+		*jobs = ncpu - 2
+		if *jobs < 2 {
+			*jobs = 2
+		}
+	}
+	e, err := setup(*repo, *verif, *z3, ncpu)
+	defer e.close()
+	if err != nil {
+		fmt.Printf("INCONCLUSIVE property=%s cannot build the encoding from %s: %v\n", *prop, *repo, err)
+		return 2
+	}
+	insts := spec.Instances(obs, *tier, seed)
+	for _, in := range insts {
+		for _, k := range known {
+			if k.Status == "known" && k.Property == *prop && (k.Harness == "" || k.Harness == in.Func) {
+				in.Known = append(in.Known, exec.KnownPred{ID: k.ID, Label: k.Label, Constraints: k.Constraints})
+			}
+		}
+	}
+	results := make([]*exec.InstanceResult, len(insts))
+	var wg sync.WaitGroup
+	sem := make(chan struct{}, *jobs)
+	for i, in := range insts {
+		wg.Add(1)
+		sem <- struct{}{}
+		go func(i int, in *exec.Instance) {
+			defer wg.Done()
+			defer func() { <-sem }()
+			results[i] = exec.RunInstance(e.prog, in, exec.Solvers{Path: e.z3, Pool: e.pool})
+		}(i, in)
+	}
+	wg.Wait()
+
+	// ---- classify
+	runner := replay.NewRunner(*repo, filepath.Join(*verif, "harness"))
+	defer runner.Close()
+	var inconclusive []string
+	var summaries []instSummary
+	var cands []*replay.Case
+	var knownSeen []exec.Violation
+	sampleByFunc := map[string]*replay.Case{}
+	var totPaths, totVCs, totTrivial, totFeas int
+	var totSteps int64
+	var solverSecs float64
+	funcs := map[string]int{}
+	for i, r := range results {
+		in := insts[i]
+		v := r.Verdict()
+		s := instSummary{Name: in.Name, Oblig: in.Oblig, Config: in.Config, Paths: r.Paths, Infeasible: r.Infeasible, Steps: r.Steps,
+			Merges: r.Merges, Forks: r.Forks, VCs: r.VCs, Trivial: r.TrivialVCs, FeasQ: r.FeasQueries, SolverSecs: r.SolverSecs, Wall: r.Wall, Sample: r.SamplePath}
+		for c := range r.CoverHit {
+			s.Covers = append(s.Covers, c)
+		}
+		sort.Strings(s.Covers)
+		totPaths += r.Paths
+		totVCs += r.VCs
+		totTrivial += r.TrivialVCs
+		totFeas += r.FeasQueries
+		totSteps += r.Steps
+		solverSecs += r.SolverSecs + r.FeasSecs
+		for f, n := range r.Funcs {
+			funcs[f] += n
+		}
+		s.Verdict = "holds-within-bound"
+		if len(v.Inconclusive) > 0 {
+			s.Verdict = "inconclusive"
+			s.Inconclusive = v.Inconclusive
+			for _, x := range v.Inconclusive {
+				inconclusive = append(inconclusive, in.Name+": "+x)
+			}
+		}
+		seen := map[string]int{}
+		for _, vi := range v.Violations {
+			s.Verdict = "counterexample"
+			key := vi.Kind + "|" + vi.Label
+			if seen[key] >= 2 {
+				continue
+			}
+			seen[key]++
+			cands = append(cands, &replay.Case{Pkg: in.Pkg, Harness: in.Func, Config: in.Config, Inputs: vi.Inputs, UF: vi.UF,
+				Property: *prop, Label: vi.Label, Kind: vi.Kind, Pos: vi.Pos, ID: in.Name})
+		}
+		knownSeen = append(knownSeen, v.Known...)
+		if len(v.Violations) == 0 && r.SamplePath != nil {
+			if _, ok := sampleByFunc[in.Func]; !ok {
+				sampleByFunc[in.Func] = &replay.Case{Pkg: in.Pkg, Harness: in.Func, Config: in.Config, Inputs: r.SamplePath, ID: in.Name, Kind: "sample"}
+			}
+		}
+		summaries = append(summaries, s)
+	}
+	// ---- native replays: counterexamples and one sample path per harness function
+	var samples []*replay.Case
+	var fnames []string
+	for f := range sampleByFunc {
+		fnames = append(fnames, f)
+	}
+	sort.Strings(fnames)
+	for _, f := range fnames {
+		samples = append(samples, sampleByFunc[f])
+	}
+	// known findings are confirmed natively as well
+	var knownCases []*replay.Case
+	for _, kv := range knownSeen {
+		knownCases = append(knownCases, &replay.Case{Pkg: kv.Instance.Pkg, Harness: kv.Instance.Func, Config: kv.Instance.Config, Inputs: kv.Inputs, UF: kv.UF,
+			Property: *prop, Label: kv.Label, Kind: "known", ID: kv.Instance.Name})
+	}
+	all := append(append(append([]*replay.Case{}, cands...), knownCases...), samples...)
+	outcomes, rerr := runner.Run(all, 5*time.Minute)
+	if rerr != nil {
+		inconclusive = append(inconclusive, "native replay failed: "+rerr.Error())
+	}
+	validated := 0
+	violations := 0
+	knownPrinted := map[string]bool{}
+	os.MkdirAll(filepath.Join(*verif, "replays", *prop), 0o755)
+	for _, o := range outcomes {
+		c := o.Case
+		switch c.Kind {
+		case "sample":
+			validated++
+			if o.Fails() {
+				inconclusive = append(inconclusive, fmt.Sprintf("engine-mismatch: sample path of %s fails natively (%s %s) although every obligation was discharged", c.ID, o.Status, o.Detail))
+			}
+		case "known":
+			validated++
+			id := strings.SplitN(c.Label, "|", 2)[0]
+			if o.Fails() && !knownPrinted[id] {
+				knownPrinted[id] = true
+				what := id
+				for _, k := range known {
+					if k.ID == id {
+						what = k.ID + ": " + k.What
+					}
+				}
+				fmt.Printf("KNOWN-FINDING: property=%s %s\n", *prop, what)
+			}
+		default:
+			validated++
+			if o.Fails() {
+				violations++
+				path := filepath.Join(*verif, "replays", *prop, sanitize(c.ID)+fmt.Sprintf("-%d.json", violations))
+				raw, _ := json.MarshalIndent(c, "", " ")
+				os.WriteFile(path, raw, 0o644)
+				fmt.Printf("VIOLATION property=%s replay=%s\n", *prop, path)
+				fmt.Printf("  instance=%s %s: %s (%s) native: %s %s\n  inputs: %s\n", c.ID, c.Kind, c.Label, c.Pos, o.Status, o.Detail, fmtInputs(c.Inputs))
+			} else {
+				inconclusive = append(inconclusive, fmt.Sprintf("engine-mismatch: counterexample for %q in %s does not reproduce natively (%s %s) inputs %s", c.Label, c.ID, o.Status, o.Detail, fmtInputs(c.Inputs)))
+			}
+		}
+	}
+	for _, x := range inconclusive {
+		fmt.Printf("INCONCLUSIVE property=%s %s\n", *prop, x)
+	}
+	if *verbose {
+		for _, s := range summaries {
+			fmt.Printf("  %-40s paths=%-5d steps=%-9d vcs=%-5d trivial=%-6d feasq=%-5d solver=%.1fs wall=%.1fs %s\n", s.Name, s.Paths, s.Steps, s.VCs, s.Trivial, s.FeasQ, s.SolverSecs, s.Wall, s.Verdict)
+		}
+	}
+	wall := time.Since(t0).Seconds()
+	fmt.Printf("SUMMARY property=%s tier=%s instances=%d paths=%d ssa_instructions=%d vcs=%d trivial=%d feasibility_queries=%d violations=%d inconclusive=%d known=%d solver_s=%.1f wall_s=%.1f\n",
+		*prop, *tier, len(insts), totPaths, totSteps, totVCs, totTrivial, totFeas, violations, len(inconclusive), len(knownPrinted), solverSecs, wall)
+
+	if !*noEvidence {
+		writeEvidence(*verif, *prop, *tier, seed, obs, summaries, funcs, evTotals{totPaths, totSteps, totVCs, totTrivial, totFeas, validated, violations, len(inconclusive), solverSecs, wall}, knownPrinted, e.z3)
+	}
+	switch {
+	case violations > 0:
+		return 1
+	case len(inconclusive) > 0:
+		return 2
+	}
+	return 0
+}
+
+type evTotals struct {
+	paths                int
+	steps                int64
+	vcs, trivial, feas   int
+	validated, viol, inc int
+	solverSecs, wall     float64
+}
+
+func sanitize(s string) string {
+	r := strings.NewReplacer("[", "_", "]", "", "=", "-", ",", "_", "/", "_", " ", "_")
+	return r.Replace(s)
+}
+
+func fmtInputs(m map[string]uint64) string {
+	var ks []string
+	for k := range m {
+		ks = append(ks, k)
+	}
+	sort.Strings(ks)
+	var sb strings.Builder
+	for i, k := range ks {
+		if i > 40 {
+			sb.WriteString("…")
+			break
+		}
+		fmt.Fprintf(&sb, "%s=%d ", k, m[k])
+	}
+	return sb.String()
+}
+
+func writeEvidence(verif, prop, tier string, seed int64, obs []*spec.Oblig, sums []instSummary, funcs map[string]int, t evTotals, known map[string]bool, z3 string) {
+	var oblDocs []map[string]interface{}
+	var assumptions []string
+	realSet := map[string]bool{}
+	for _, o := range obs {
+		oblDocs = append(oblDocs, map[string]interface{}{"id": o.ID, "harness": o.Pkg + ":" + o.Func, "what": o.Desc, "bound": o.Bound, "real_functions": o.Real, "stubs_and_assumptions": o.Stubs})
+		for _, s := range o.Stubs {
+			assumptions = append(assumptions, o.ID+": "+s)
+		}
+		for _, r := range o.Real {
+			realSet[r] = true
+		}
+	}
+	var fl []string
+	for f := range funcs {
+		if strings.Contains(f, "boombuler/barcode") && !strings.Contains(f, "VP_") && !strings.Contains(f, ".vp") && !strings.Contains(f, "init") {
+			fl = append(fl, fmt.Sprintf("%s x%d", f, funcs[f]))
+		}
+	}
+	sort.Strings(fl)
+	nontrivial := 0
+	for _, s := range sums {
+		if s.VCs > 0 || s.FeasQ > 0 {
+			nontrivial++
+		}
+	}
+	samples := []interface{}{}
+	for i, s := range sums {
+		if i < 6 || i == len(sums)-1 {
+			samples = append(samples, s)
+		}
+	}
+	var kf []string
+	for k := range known {
+		kf = append(kf, k)
+	}
+	sort.Strings(kf)
+	ev := map[string]interface{}{
+		"property_id": prop,
+		"tier":        tier,
+		"seed":        seed,
+		"level":       "model_checking",
+		"wall_s":      t.wall,
+		"violations":  t.viol,
+		"assumptions": append(assumptions,
+			"every claim is bounded: see coverage.obligations[*].bound; inputs outside the bounds are outside the claim",
+			"library models (errors/fmt opaque, strings.IndexRune on constant haystacks, UTF-8 built-ins, sync.Mutex as owner flag, math.* concrete) as listed in DESIGN.md section 2.4",
+			"soundness of the term simplifier (fuzz-tested against reference semantics in engine/term) and of the solver"),
+		"coverage": map[string]interface{}{
+			"states":                        t.paths,
+			"transitions":                   t.steps,
+			"traces_validated_against_impl": t.validated,
+			"samples":                       samples,
+			"obligations":                   t.vcs + t.trivial,
+			"discharged":                    t.vcs + t.trivial - t.viol - t.inc,
+			"evaluations":                   len(sums),
+			"distinct_nontrivial":           nontrivial,
+			"rule":                          "one evaluation = one harness instance (harness function x configuration) explored path-exhaustively by the symbolic executor; an instance is non-trivial if at least one of its obligations or branch decisions needed the SMT solver (not closed by term normalisation alone); states = complete feasible paths, transitions = go/ssa instructions interpreted",
+			"technique":                     "bounded symbolic execution of go/ssa of /repo's current tree into SMT-LIB2; verdicts by " + z3,
+			"obligation_families":           oblDocs,
+			"solver_vcs":                    t.vcs,
+			"vcs_closed_by_term_normalisation": t.trivial,
+			"feasibility_queries":           t.feas,
+			"solver_seconds":                t.solverSecs,
+			"inconclusive":                  t.inc,
+			"known_findings_seen":           kf,
+			"repo_functions_executed":       fl,
+			"instances":                     sums,
+			"exhaustive":                    false,
+		},
+	}
+	os.MkdirAll(filepath.Join(verif, "evidence"), 0o755)
+	raw, _ := json.MarshalIndent(ev, "", " ")
+	os.WriteFile(filepath.Join(verif, "evidence", prop+".json"), raw, 0o644)
+}
+
+func cmdReplay(args []string) int {
+	fs := flag.NewFlagSet("replay", flag.ExitOnError)
+	repo := fs.String("repo", "/repo", "")
+	verif := fs.String("verif", "/verif", "")
+	path := fs.String("path", "", "replay file")
+	fs.Parse(args)
+	raw, err := os.ReadFile(*path)
+	if err != nil {
+		fatal(err)
+	}
+	var c replay.Case
+	if err := json.Unmarshal(raw, &c); err != nil {
+		fatal(err)
+	}
+	runner := replay.NewRunner(*repo, filepath.Join(*verif, "harness"))
+	defer runner.Close()
+	outs, err := runner.Run([]*replay.Case{&c}, 5*time.Minute)
+	if err != nil {
+		fatal(err)
+	}
+	for _, o := range outs {
+		fmt.Printf("replay %s %s: %s %s\n", c.Harness, fmtInputs(c.Inputs), o.Status, o.Detail)
+		if o.Fails() {
+			fmt.Printf("VIOLATION property=%s replay=%s\n", c.Property, *path)
+			return 1
+		}
+	}
+	return 0
 }
